@@ -1,5 +1,6 @@
 import ServiceModel.Inv.Monitors
 import ServiceModel.Proofs.Reachable
+import ServiceModel.Proofs.Restart
 /-!
 # The backing monitors are implied by the invariants
 
@@ -9,7 +10,7 @@ invariants the monitor reports nothing, so an alarm of these monitors on an impl
 state is not one the model can reach.
 -/
 namespace SM
-open Mon
+open Mon Map
 
 theorem escrowBacked_sound {s : State} (h : Inv s) : escrowBacked s = [] := by
   unfold escrowBacked chk
@@ -25,5 +26,53 @@ theorem depositBacked_sound {s : State} (h : Inv s) : depositBacked s = [] := by
 theorem backing_monitors_quiet_on_reachable {cfg : Config} {p : Params} {h0 t0 : Int} (hc : CfgOK cfg p) {s : State}
     (hr : Reachable cfg p h0 t0 s) : escrowBacked s = [] ∧ depositBacked s = [] :=
   ⟨escrowBacked_sound (reachable_inv hc hr), depositBacked_sound (reachable_inv hc hr)⟩
+
+/-! ### the minimum-deposit monitor (C14) is implied by the invariants -/
+theorem get_of_mem_nodupKeys {κ ν} [DecidableEq κ] {m : Map κ ν} (h : Map.NodupKeys m) {p : κ × ν} (hp : p ∈ m) :
+    Map.get m p.1 = some p.2 := by
+  have : (p.1, p.2) ∈ entries m := by rw [entries_of_nodupKeys m h]; exact hp
+  exact (mem_entries m p.1 p.2).mp this
+
+/-- in a state satisfying the invariants (with one record per binding key) the monitor `minDep` reports nothing -/
+theorem minDep_sound {s : State} (h : InvAll s) : minDep s = [] := by
+  unfold minDep
+  rw [List.flatMap_eq_nil_iff]
+  intro p hp
+  have hg := get_of_mem_nodupKeys h.nodup hp
+  by_cases hav : p.2.avail = true
+  · rw [if_pos hav]
+    obtain ⟨pr, md, hpr, hmd, hle⟩ := h.inv.b.minDep p.1 p.2 hg hav
+    obtain ⟨pr2, hpr2, hparse, _⟩ := h.inv.b.priced p.1 p.2 hg
+    rw [hpr] at hpr2; injection hpr2 with hpr2; subst hpr2
+    rw [hparse]
+    dsimp only
+    rw [hmd]
+    dsimp only
+    unfold chk
+    rw [if_pos (by simpa using hle)]
+  · rw [if_neg hav]
+
+theorem minDep_monitor_quiet_on_chains_with_restarts {cfg : Config} {p : Params} {h0 t0 : Int} (hc : CfgOK cfg p) {s : State}
+    (hr : ReachableR cfg p h0 t0 s) : minDep s = [] := minDep_sound (reachableR_invAll hc hr)
+
+/-! ### the earnings monitor (C13) is implied by the invariants -/
+theorem ownerEarnings_sound {s : State} (h : Inv s) : ownerEarnings s = [] := by
+  unfold ownerEarnings
+  rw [List.append_eq_nil_iff]
+  constructor
+  · rw [List.flatMap_eq_nil_iff]
+    intro o _
+    unfold chk
+    rw [if_pos]
+    have := h.m.ownerSum o
+    unfold ownedEarned
+    simpa using this
+  · rw [List.flatMap_eq_nil_iff]
+    intro p hp
+    unfold chk
+    rw [if_pos]
+    apply h.m.earnedOwned p.1
+    rw [get_isSome_iff_mem_keys]
+    exact List.mem_map_of_mem hp
 
 end SM
